@@ -143,3 +143,43 @@ def simple_property_getters(path: str, classes: list[str]) -> dict[str, ast.expr
         if len(by_name[name]) == 1:
             out[name] = v
     return out
+
+
+# ------------------------------------------------------------------ truthiness of class instances
+_FALSY_CAPABLE_BASES = {"list", "dict", "set", "tuple", "str", "int", "float", "bytes", "frozenset", "deque", "Sequence", "MutableSequence", "Mapping",
+                        "MutableMapping", "Set", "MutableSet", "AbstractSet", "Collection", "Sized", "IntEnum", "IntFlag", "Flag", "StrEnum", "Counter",
+                        "OrderedDict", "defaultdict", "UserDict", "UserList", "KeysView", "ValuesView", "ItemsView"}
+
+
+@lru_cache(maxsize=None)
+def _class_index() -> dict:
+    """class name -> [(base names, defines __bool__ or __len__)] for every class statement of the live package (all same-named classes)."""
+    import glob
+
+    idx: dict = {}
+    for f in glob.glob(os.path.join(REPO, "xdsl", "**", "*.py"), recursive=True):
+        try:
+            tree = ast.parse(open(f, encoding="utf-8").read())
+        except (SyntaxError, OSError):
+            continue
+        for node in ast.walk(tree):
+            if isinstance(node, ast.ClassDef):
+                own = any(isinstance(b, (ast.FunctionDef, ast.AsyncFunctionDef)) and b.name in ("__bool__", "__len__") for b in node.body)
+                own = own or any(isinstance(b, ast.Assign) and any(isinstance(t, ast.Name) and t.id in ("__bool__", "__len__") for t in b.targets) for b in node.body)
+                bases = [ast.unparse(b).split("[")[0].split(".")[-1] for b in node.bases]
+                idx.setdefault(node.name, []).append((bases, own))
+    return idx
+
+
+def class_overrides_truthiness(name: str, _seen: tuple = ()) -> bool:
+    """
+    True if an instance of a class of this name may be falsy: some class statement of that name in the live package, or one of its bases
+    (resolved by name, transitively), defines __bool__ / __len__ or derives from a container / number type.  `if x:` on such an object is
+    not `x is not None`.
+    """
+    if name in _FALSY_CAPABLE_BASES:
+        return True
+    idx = _class_index()
+    if name in _seen or name not in idx:
+        return False
+    return any(own or any(class_overrides_truthiness(b, _seen + (name,)) for b in bases) for bases, own in idx[name])
